@@ -31,14 +31,14 @@ def run(ctx):
         ctx.guard("C07", "rle-validator", lambda: rle.validator_refusals(ctx, prog))
         ctx.guard("C07", "expand-step", lambda: rle.expand_step(ctx, prog))
         ctx.guard("C07", "expand-copy", lambda: rle.expand_copy(ctx, prog))
-        ctx.guard("C07", "summaries", lambda: summary.check(ctx, prog, 'hash_dual::', floor=10))
-        ctx.guard("C07", "path summaries", lambda: summary.check_paths(ctx, prog, 'hash_dual::', floor=4))
-        if c in ("dbg", "unsafe_dbg", "strict_dbg"):
-            ctx.guard("C07", "beliefs", lambda: beliefs.census(ctx, prog, beliefs.SCOPES["C07"][0], floor=beliefs.SCOPES["C07"][1]))
         ctx.guard("C07", "traits", lambda: vis.trait_census(ctx, prog, scope='hash_dual::'))
         if c == "unchecked":
             ctx.guard("C07", "twins", lambda: features.twins(ctx, prog, scope='FuzzyHashDualData', floor=2))
         ctx.guard("C07", "casts", lambda: casts.census(ctx, prog, scope='hash_dual::', floor=3))
+        ctx.guard("C07", "summaries", lambda: summary.check(ctx, prog, 'hash_dual::', floor=10))
+        ctx.guard("C07", "path summaries", lambda: summary.check_paths(ctx, prog, 'hash_dual::', floor=4))
+        if c in ("dbg", "unsafe_dbg", "strict_dbg"):
+            ctx.guard("C07", "beliefs", lambda: beliefs.census(ctx, prog, beliefs.SCOPES["C07"][0], floor=beliefs.SCOPES["C07"][1]))
     return ctx.finish(EXPL, ["raw inputs of the compressor are valid raw block hashes (length <= capacity)"])
 
 
